@@ -241,11 +241,63 @@ def c13_matrix(kw):
     return True
 
 
+# ---- a document that carries a matrix, character sets and trees: the tree routes skip what the data-set route parses
+MIX_TAXA = "BEGIN TAXA;\n DIMENSIONS NTAX=3;\n TAXLABELS a b c;\nEND;\n"
+MIX_CHARS = "BEGIN CHARACTERS;\n DIMENSIONS NCHAR=4;\n FORMAT DATATYPE=DNA GAP=- MISSING=?;\n MATRIX\n a AC-T\n b A?GT\n c ACGT\n ;\nEND;\n"
+MIX_CHARSETS = ["1-2", "ALL", "1 3", "2-.", "1-4\\2", "3"]
+MIX_BODIES = ["(a:1e-2,(b:0.5,c:1):2)", "(a:-0.5,(b:1E-3,c:1):2e-1)", "((a,b)0.5,c)", "(a,b,c)"]
+MIX_NAMES = ["t1", "t-1", "'t 1'"]
+SPEC_X = [("cs0", int), ("cs1", int), ("ncs", int), ("body0", int), ("body1", int), ("name", int), ("order", int), ("o_nolen", bool), ("kind", str)]
+
+
+@with_signature(SPEC_X)
+def c13_mixed(kw):
+    ncs = choose(kw["ncs"], 3)
+    sets = "BEGIN SETS;\n" + "".join(" CHARSET s%d = %s;\n" % (i, MIX_CHARSETS[choose(kw["cs%d" % i], len(MIX_CHARSETS))]) for i in range(ncs)) + "END;\n"
+    trees = "BEGIN TREES;\n TREE %s = %s;\n TREE u = %s;\nEND;\n" % (
+        MIX_NAMES[choose(kw["name"], len(MIX_NAMES))], MIX_BODIES[choose(kw["body0"], len(MIX_BODIES))], MIX_BODIES[choose(kw["body1"], 2)])
+    order = choose(kw["order"], 3)
+    blocks = [[MIX_CHARS, sets, trees], [trees, MIX_CHARS, sets], [MIX_CHARS, trees, sets]][order]
+    doc = "#NEXUS\n" + MIX_TAXA + "".join(blocks)
+    opts = {}
+    if kw["o_nolen"]:
+        opts["suppress_edge_lengths"] = True
+    tns = dendropy.TaxonNamespace()
+    base = dendropy.TreeList.get(data=doc, schema="nexus", taxon_namespace=tns, **opts)
+    if len(base) != 2:
+        return "treelist-get:unexpected-number-of-trees"
+    ds = dendropy.DataSet.get(data=doc, schema="nexus", taxon_namespace=tns, **opts)
+    r = compare(base, [t for tl in ds.tree_lists for t in tl], "DataSet.get", True)
+    if r is not None:
+        return r
+    r = compare(base, list(dendropy.Tree.yield_from_files([io.StringIO(doc)], schema="nexus", taxon_namespace=tns, **opts)), "Tree.yield_from_files", True)
+    if r is not None:
+        return r
+    r = compare([base[1]], [dendropy.Tree.get(data=doc, schema="nexus", taxon_namespace=tns, tree_offset=1, **opts)], "Tree.get", True)
+    if r is not None:
+        return r
+    m = dendropy.DnaCharacterMatrix.get(data=doc, schema="nexus", taxon_namespace=tns)
+    if len(ds.char_matrices) != 1:
+        return "dataset:number-of-matrices"
+    m2 = ds.char_matrices[0]
+    for t in tns:
+        if m[t].symbols_as_string() != m2[t].symbols_as_string():
+            return "matrix:sequences-differ"
+    if sorted(m.character_subsets.keys()) != sorted(m2.character_subsets.keys()):
+        return "matrix:character-subsets-differ"
+    for k in m.character_subsets:
+        if list(m.character_subsets[k].character_indices) != list(m2.character_subsets[k].character_indices):
+            return "matrix:character-subset-columns-differ"
+    if [t.label for t in tns] != ["a", "b", "c"]:
+        return "namespace-labels-differ-between-routes"
+    return True
+
+
 def classify(inp):
     return "%s:%s" % (inp.get("schema"), inp.get("route"))
 
 
-BUDGET = dict(quick=240, thorough=1500)
+BUDGET = dict(quick=240, thorough=1000)
 ROUTES = ["tree_get", "list_read", "yield", "dataset", "tree_array", "sources"]
 
 
@@ -266,4 +318,9 @@ def harnesses(tier):
                                "NewickReader", "NexusReader", "NexmlReader", "Deserializable._get_from"], cost=5.0, path_timeout=10.0, **common),
             Harness("c13_matrix", "C13", c13_matrix, [dict(schema="nexus", nchar=n) for n in ((0, 1) if q else (0, 1, 2))],
                     bounds=dict(matrix="3 taxa x 1..%d DNA characters; first row: each cell a symbolic choice among ACGT-?RN, other rows fixed" % (2 if q else 3)),
-                    functions=["CharacterMatrix.get", "DataSet.get", "NexusReader._parse_characters_data_block"], cost=1.0, **common)]
+                    functions=["CharacterMatrix.get", "DataSet.get", "NexusReader._parse_characters_data_block"], cost=1.0, **common),
+            Harness("c13_mixed", "C13", c13_mixed, [dict(kind="mixed", order=o, ncs=n) for o in range(3) for n in range(3)],
+                    bounds=dict(document="NEXUS with TAXA, CHARACTERS (3x4 DNA), SETS (0..2 CHARSET statements, each a symbolic choice of %d position forms incl. ALL, ranges, '.', stride) and TREES (2 statements: symbolic choice of %d bodies with exponent / negative lengths / internal labels, %d tree names incl. hyphenated and quoted), in 3 block orders" % (len(MIX_CHARSETS), len(MIX_BODIES), len(MIX_NAMES)),
+                                routes="TreeList.get vs DataSet.get / Tree.yield_from_files / Tree.get; CharacterMatrix.get vs the data set's matrix (cells and character subsets)", options="suppress_edge_lengths symbolic"),
+                    functions=["NexusReader._parse_sets_block/_parse_charset_statement/_parse_positions", "NexusReader._parse_tree_statement", "NexusTreeDataYielder", "DataSet.get", "TreeList.get", "CharacterMatrix.get"],
+                    cost=1.0, **common)]
